@@ -51,17 +51,39 @@ def r10_1(run):
                        message='%s (reachable from a config setter/getter) calls %s: a command is sent before save()' % (u.short, d))
         run.ob('R10.1', u, u.node, 'effect-free: %s' % u.short, True)
     run.floor('R10.1', 'units examined', len(reach), 12)
-    # the on_modify slot only ever holds partial(<config>.mark_unsaved, <name>)
+    wrapper_callbacks(run, 'R10.1')
+
+
+def wrapper_callbacks(run, rid):
+    """the on_modify slot of every tracked list marks that list's own option: it binds the option name
+    when the wrapper is built (functools.partial, or a lambda default), never a late-bound loop variable"""
+    idx = run.idx
     n = 0
     for u in idx.all_units():
         for c in calls_in(u):
             if dotted(c.func) == '_ListWrapper' and len(c.args) >= 2:
                 n += 1
                 cb = c.args[1]
-                ok = isinstance(cb, ast.Call) and dotted(cb.func) == 'functools.partial' and cb.args and (dotted(cb.args[0]) or '').endswith('.mark_unsaved')
-                run.ob('R10.1', u, c, 'list wrapper callback is partial(mark_unsaved, name)', ok, slot='on_modify@%s' % u.short,
-                       message='%s builds a _ListWrapper whose modification callback is %s' % (u.short, src(cb)[:60]))
-    run.floor('R10.1', '_ListWrapper constructions', n, 6)
+                ok = isinstance(cb, ast.Call) and dotted(cb.func) in ('functools.partial', 'partial') and len(cb.args) == 2 and (dotted(cb.args[0]) or '').endswith('.mark_unsaved')
+                bound = cb.args[1] if ok else None
+                if isinstance(cb, ast.Lambda) and isinstance(cb.body, ast.Call) and (dotted(cb.body.func) or '').endswith('.mark_unsaved') and len(cb.body.args) == 1:
+                    a = cb.body.args[0]
+                    params = [p.arg for p in cb.args.args]
+                    if isinstance(a, ast.Name) and a.id in params and len(cb.args.defaults) == len(params):
+                        ok = True
+                        bound = cb.args.defaults[params.index(a.id)]
+                run.ob(rid, u, c, 'list wrapper callback binds its option name when built: partial(mark_unsaved, name)', ok, slot='on_modify@%s' % u.short,
+                       message='%s builds a _ListWrapper whose modification callback is %s: a name looked up when the list is edited is '
+                               'whatever the enclosing loop / function last set it to, so the edit is recorded under another option' % (u.short, src(cb)[:60]))
+                # stored directly under a key: the bound name is that key
+                par = None
+                for st in walk_unit(u):
+                    if isinstance(st, ast.Assign) and st.value is c and isinstance(st.targets[0], ast.Subscript):
+                        par = st
+                if par is not None and bound is not None:
+                    run.ob(rid, u, par, 'the wrapper marks the option it is stored under', src(par.targets[0].slice) == src(bound), slot='on_modify-key@%s' % u.short,
+                           message='%s stores the list under %s but edits mark %s' % (u.short, src(par.targets[0].slice), src(bound)))
+    run.floor(rid, '_ListWrapper constructions', n, 6)
 
 
 def r10_7(run):
